@@ -39,7 +39,9 @@ RULE = ('corpus first; four case families: (wave) Wavefront(tilt=) with 0..4 ent
         'updates, OPD dtype float64/float32/int64/int32, mask dtype float/int/bool/uint8, amplitude float/int; (prop) pupils <= 8x8, monolithic or 2-3 segments with per-segment tilts, 1..4 global tilt elements in '
         'several orderings, total displacement from 0.1 px to 1.5x the output (40% of the cases with the displaced window '
         'straddling the edge of the output: |s| in (S/2-P/2, S/2+P/2) per axis and sign), scalar/per-axis/int/tuple argument '
-        'forms, optional output mask, one-segment 3-d masks, the same plane objects re-used across all chains of a case, per-axis dx/du, oversample 1..3, each case '
+        'forms (positional / keyword, int / tuple / small-width integer dtypes, w*p / p*w / w*=p), optional output mask, one-segment 3-d masks, '
+        'one-sample segments, the tilt also as an OPD ramp in a second array plane (both orders), zero-padded polynomials, caller numpy '
+        'error state raise/ignore, every intermediate wavefront held and re-checked, the same plane objects re-used across all chains of a case, per-axis dx/du, oversample 1..3, each case '
         'propagated as OPD ramp / Tilt planes (1-3 orderings, before and after the pupil) / Wavefront(tilt=) / fit_tilt after 0..2 OPD '
         'updates / mixed (wavefront tilt + fitted OPD + planes); non-trivial = non-zero tilt')
 
@@ -57,7 +59,13 @@ def enc_f(x):
 
 
 # ------------------------------------------------------------------ tilt elements
-def tilt_obj(lentil, e):
+def tilt_obj(lentil, e, positional=False):
+    if positional:
+        if e[0] == 'ang':
+            return lentil.Tilt(fl(e[1]), fl(e[2]))
+        if e[0] == 'dispn':
+            return lentil.DispersiveTilt([fl(v) for v in e[1]], [fl(v) for v in e[2]])
+        return lentil.DispersiveTilt([fl(e[1]), fl(e[2])], [fl(e[3]), fl(e[4])])
     if e[0] == 'ang':
         return lentil.Tilt(x=fl(e[1]), y=fl(e[2]))
     if e[0] == 'dispn':
@@ -198,7 +206,12 @@ def rnd_dispn(rng, wl, scale):
     c3 = c1 / (32 * X * X) * rng.choice([1, -1])
     hi = {1: [c1], 2: [c2, c1], 3: [c3, F(0), c1]}[do]
     c0 = F(wl) - sum(c * d ** (len(hi) - i) for i, c in enumerate(hi))
-    return ['dispn', [str(v) for v in trace], [str(v) for v in hi + [c0]]]
+    tr, di = [str(v) for v in trace], [str(v) for v in hi + [c0]]
+    if (to == 1 and rng.random() < 0.6) or rng.random() < 0.25:       # coefficient vectors padded with leading zeros (a padded linear trace is still linear)
+        tr = ['0'] * rng.choice([1, 2]) + tr
+    if rng.random() < 0.2:
+        di = ['0'] * rng.choice([1, 2]) + di
+    return ['dispn', tr, di]
 
 
 def add_alias(rng, tl, p=0.3):
@@ -213,8 +226,8 @@ def add_alias(rng, tl, p=0.3):
     return alias
 
 
-def make_objs(lentil, elems, alias):
-    objs = [tilt_obj(lentil, e) for e in elems]
+def make_objs(lentil, elems, alias, positional=False):
+    objs = [tilt_obj(lentil, e, positional) for e in elems]
     for j, i in (alias or {}).items():
         objs[int(j)] = objs[i]
     return objs
@@ -250,7 +263,8 @@ def gen_shift(rng):
     perm = list(range(n))
     rng.shuffle(perm)
     return {'op': 'shift', 'tilts': tl, 'z': z, 'wl': wl, 'ps': ps, 'os': os_, 'indexing': ix,
-            'exact': exact and ps is not None, 'perm': perm, 'alias': alias}
+            'exact': exact and ps is not None, 'perm': perm, 'alias': alias, 'positional': rng.random() < 0.3,
+            'refused_between': rng.random() < 0.3, 'errstate': None if rng.random() < 0.7 else rng.choice(['raise', 'ignore'])}
 
 
 def noncollinear(pts):
@@ -354,7 +368,8 @@ def gen_fit(rng, tier):
             'unit_exp': 0 if integer or rng.random() < 0.6 else rng.choice([-30, -20, -40, 10]),
             # ndarray subclasses are legal array_like inputs: same data, same result
             'container': rng.choice(['ndarray'] * 6 + ['masked', 'masked1', 'matrix']),
-            'inplace': rng.choice(['False'] * 6 + ['True', '1', 'np.True_', '0'])}
+            'inplace': rng.choice(['False'] * 6 + ['True', '1', 'np.True_', '0']),
+            'errstate': None if rng.random() < 0.7 else rng.choice(['raise', 'ignore'])}
 
 
 def gen_prop(rng, tier):
@@ -362,6 +377,12 @@ def gen_prop(rng, tier):
     m, n = rng.randint(2, hi), rng.randint(2, hi)
     nseg = rng.choice([1, 1, 2, 3]) if min(m, n) >= 3 else 1
     masks = rnd_masks(rng, m, n, nseg)
+    one_sample = rng.random() < 0.15
+    if one_sample:          # a segment (or the whole aperture) with exactly one lit sample
+        k = rng.randrange(nseg)
+        lit = [(i, j) for i in range(m) for j in range(n) if masks[k][i][j]]
+        keep = rng.choice(lit)
+        masks[k] = [[1 if (i, j) == keep else 0 for j in range(n)] for i in range(m)]
     amp = [[rng.randint(1, 3) for _ in range(n)] for _ in range(m)]
     wl = rng.choice(['1', '1/2', '2'])
     base = [[str(F(rng.randint(-4, 4), 8) * F(wl)) if rng.random() < 0.5 else '0' for _ in range(n)] for _ in range(m)]
@@ -438,12 +459,16 @@ def gen_prop(rng, tier):
              'mask3d': nseg == 1 and rng.random() < 0.2,
              'amp_int': rng.random() < 0.3,
              'amp_exp': 0 if rng.random() < 0.7 else rng.choice([-30, -40, -45]),      # field amplitudes down to 1e-13
-             'omask': omask}
+             'omask': omask,
+             'opforms': [rng.choice(['w*p', 'w*p', 'p*w', 'w*=p']) for _ in range(3)],
+             'int_dtype': None if rng.random() < 0.75 else rng.choice(['uint8', 'int8', 'uint16']),
+             'errstate': None if rng.random() < 0.7 else rng.choice(['raise', 'ignore']),
+             'positional': rng.random() < 0.3}
     nupd = rng.choice([0, 1, 2])
     w = [F(1)] if nupd == 0 else ([F(1, 2), F(1, 2)] if nupd == 1 else [F(1, 2), F(1, 4), F(1, 4)])
     return {'op': 'prop', 'm': m, 'n': n, 'masks': masks, 'amp': amp, 'base': base, 'wl': wl, 'dx': dx, 'du': du,
             'z': z, 'os': os_, 'shape': shape, 'prop_shape': prop_shape, 'seg': seg, 'elems': elems,
-            'orders': orders, 'weights': [str(x) for x in w], 'edge': bool(edge), 'forms': forms, 'alias': alias}
+            'orders': orders, 'weights': [str(x) for x in w], 'edge': bool(edge), 'forms': forms, 'alias': alias, 'one_sample': one_sample}
 
 
 def gen_wave(rng):
@@ -487,7 +512,7 @@ def classify(c):
     return (f'prop/seg{len(c["masks"])}/el{len(c["elems"])}/os{c["os"]}' + ('/aniso' if c['du'][0] != c['du'][1] else '')
             + ('/edge' if c.get('edge') else '') + ('/omask' if (c.get('forms') or {}).get('omask') else '')
             + ('/mask3d' if (c.get('forms') or {}).get('mask3d') else '')
-            + ('/order>1' if has_dispn(c['elems']) else '') + ('/sameobj' if c.get('alias') else ''))
+            + ('/order>1' if has_dispn(c['elems']) else '') + ('/sameobj' if c.get('alias') else '') + ('/1sample' if c.get('one_sample') else ''))
 
 
 def nontrivial(c):
@@ -562,7 +587,7 @@ def prop_setup(c):
 
 
 def rep_names(c):
-    return ['opd'] + [f'plane{k}' for k in range(len(c['orders']))] + ['wavefront', 'fit', 'mixed', 'again', 'branch']
+    return ['opd'] + [f'plane{k}' for k in range(len(c['orders']))] + ['wavefront', 'fit', 'mixed', 'again', 'branch', 'opd2', 'opd2r']
 
 
 def mixed_parts(c, st):
@@ -657,6 +682,8 @@ def encode(c):
         chains.append(list(chains[1]))                                                  # again = plane0
         items = [plain] + [[0] + enc_tilt(e) for e in c['elems']]                       # branch: pupil, then every element
         chains.append([0] + [len(items)] + [x for it in items for x in it])
+        chains.append([0] + [2] + plain + [1, 1, 0])                                    # opd2: pupil, then a second array plane
+        chains.append([0] + [2] + [1, 1, 0] + plain)                                    # opd2r: the two array planes exchanged
         out = [3] + enc_f(c['z']) + enc_f(c['wl']) + enc_ps(list(c['du'])) + enc_f(c['os']) + [len(chains)]
         for ch in chains:
             out += ch
@@ -730,13 +757,27 @@ def run_rep(lentil, c, st, wave_tilt, planes, start=None):
         w = start
     else:
         w = lentil.Wavefront(st['wl']) if wave_tilt is None else lentil.Wavefront(st['wl'], tilt=list(wave_tilt))
-    for p in planes:
-        w = w * p
-    du = (fl(c['du'][0]), fl(c['du'][1]))
     fm = c.get('forms') or {}
-    kw = dict(pixelscale=du[0] if fm.get('du_scalar') else du,
-              shape=c['shape'][0] if fm.get('shape_int') else tuple(c['shape']), oversample=c['os'],
-              prop_shape=None if c['prop_shape'] is None else (c['prop_shape'][0] if fm.get('prop_int') else tuple(c['prop_shape'])))
+    held = []            # every intermediate wavefront stays referenced; its tilt bookkeeping must not change afterwards
+    for k, p in enumerate(planes):
+        held.append((w, [[stored(t) for t in f.tilt] for f in w.data]))
+        form = (fm.get('opforms') or ['w*p'])[k % len(fm.get('opforms') or ['w*p'])]
+        if form == 'p*w':
+            w = p * w
+        elif form == 'w*=p':
+            w *= p
+        else:
+            w = w * p
+    du = (fl(c['du'][0]), fl(c['du'][1]))
+    idt = {'uint8': np.uint8, 'int8': np.int8, 'uint16': np.uint16}.get(fm.get('int_dtype'))
+    shape_arg = c['shape'][0] if fm.get('shape_int') else tuple(c['shape'])
+    prop_arg = None if c['prop_shape'] is None else (c['prop_shape'][0] if fm.get('prop_int') else tuple(c['prop_shape']))
+    os_arg = c['os']
+    if idt is not None:      # small-width integer scalars / arrays for shape, prop_shape, oversample
+        shape_arg = idt(shape_arg) if np.ndim(shape_arg) == 0 else np.array(shape_arg, dtype=idt)
+        prop_arg = None if prop_arg is None else (idt(prop_arg) if np.ndim(prop_arg) == 0 else np.array(prop_arg, dtype=idt))
+        os_arg = idt(os_arg)
+    kw = dict(pixelscale=du[0] if fm.get('du_scalar') else du, shape=shape_arg, oversample=os_arg, prop_shape=prop_arg)
     if fm.get('omask'):
         kw['mask'] = out_mask(c)
     shifts = [[float(np.ravel(v)[0]) for v in f.shift(z=w.focal_length, wavelength=w.wavelength, pixelscale=du, oversample=c['os'])]
@@ -750,25 +791,48 @@ def run_rep(lentil, c, st, wave_tilt, planes, start=None):
         o1 = lentil.propagate_dft(w, **kw)
         per_field.append(windows_of(o1))
     w.data = data
+    intact = all([[stored(t) for t in f.tilt] for f in hw.data] == snap for hw, snap in held)
     return {'shifts': shifts, 'tilts': tilts, 'field': np.asarray(out.field), 'windows': windows_of(out),
-            'per_field': per_field}
+            'per_field': per_field, 'held_intact': bool(intact)}
 
 
 def run_impl(c):
+    """the call history of the case, under the caller's numpy error state the case asks for; the library must neither
+    depend on it nor change it"""
+    es = c.get('errstate') or (c.get('forms') or {}).get('errstate')
+    if es is None:
+        return run_impl_inner(c)
+    with np.errstate(over=es, invalid=es, divide=es):
+        before = np.geterr()
+        res = run_impl_inner(c)
+        if isinstance(res, dict) and np.geterr() != before:
+            res['errstate_changed'] = [before, np.geterr()]
+    return res
+
+
+def run_impl_inner(c):
     lentil = C.import_lentil()
     if c['op'] in ENTRY_OPS:
         return entry_run(lentil, c)
     if c['op'] == 'shift':
-        objs = make_objs(lentil, c['tilts'], c.get('alias'))
+        objs = make_objs(lentil, c['tilts'], c.get('alias'), c.get('positional'))
         ps = None if c['ps'] is None else (fl(c['ps']) if not isinstance(c['ps'], list) else (fl(c['ps'][0]), fl(c['ps'][1])))
         ix = {'ij': 'ij', 'xy': 'xy', 'bad': 'rc'}[c['indexing']]
 
         def one(lst):
             f = lentil.field.Field(data=1, tilt=list(lst))
+            if c.get('positional'):
+                return [float(np.ravel(v)[0]) for v in f.shift(fl(c['z']), fl(c['wl']), ps, c['os'], ix)]
             return [float(np.ravel(v)[0]) for v in f.shift(z=fl(c['z']), wavelength=fl(c['wl']), pixelscale=ps,
                                               oversample=c['os'], indexing=ix)]
         try:
             res = {'shift': one(objs), 'tilts': [stored(t) for t in objs]}
+            if c.get('refused_between'):          # a refused call in the middle of the history must leave no trace
+                for bad in (dict(pixelscale=None, indexing='ij'), dict(pixelscale=1.0, indexing='rc')):
+                    try:
+                        lentil.field.Field(data=1, tilt=list(objs)).shift(z=1.0, wavelength=1.0, oversample=1, **bad)
+                    except ValueError:
+                        pass
             res['perm'] = one([objs[k] for k in c['perm']])
             res['rev'] = one(objs[::-1])
             return res
@@ -826,7 +890,7 @@ def run_impl(c):
                 res[name] = {'err': type(e).__name__ + ': ' + str(e)[:200]}
         guard('opd', lambda: run_rep(lentil, c, st, None, [mk_pupil(lentil, c, st, opd_seg + st['glob_ramp'])]))
         # one history in one process: the same element objects and the same pupil object serve every chain
-        objs = make_objs(lentil, c['elems'], c.get('alias'))
+        objs = make_objs(lentil, c['elems'], c.get('alias'), (c.get('forms') or {}).get('positional'))
         pupil = mk_pupil(lentil, c, st, opd_seg)
 
         def plane_chain(o):
@@ -865,6 +929,13 @@ def run_impl(c):
                 side = side * objs[0]
             return run_rep(lentil, c, st, None, list(objs), start=stem)
         guard('branch', branch_rep)
+
+        # the tilt written as an OPD ramp in a SECOND array plane (full aperture, unit amplitude), in both orders
+        def second_plane():
+            return lentil.Pupil(amplitude=np.ones((c['m'], c['n'])), opd=ramp(c['m'], c['n'], st['ag'], st['bg'], c['dx']),
+                                pixelscale=(fl(c['dx'][0]), fl(c['dx'][1])), focal_length=st['z'])
+        guard('opd2', lambda: run_rep(lentil, c, st, None, [mk_pupil(lentil, c, st, opd_seg), second_plane()]))
+        guard('opd2r', lambda: run_rep(lentil, c, st, None, [second_plane(), mk_pupil(lentil, c, st, opd_seg)]))
         return res
     return {'err': 'unknown op'}
 
@@ -1002,6 +1073,8 @@ def must_evaluate(shape, P, s, eps=1e-9):
 
 
 def oracle(c, impl):
+    if isinstance(impl, dict) and impl.get('errstate_changed'):
+        return f'the library changed the caller\'s numpy error state: {impl["errstate_changed"]}'
     if c['op'] in ENTRY_OPS:
         return entry_oracle(c, impl)
     if c['op'] == 'wave':
@@ -1093,6 +1166,8 @@ def oracle(c, impl):
                 return f'{name}: propagation raised {None if r is None else r["err"]}'
             if len(r['per_field']) != nseg:
                 return f'{name}: {len(r["per_field"])} pupil-plane fields for {nseg} segments'
+            if not r.get('held_intact', True):
+                return f'{name}: a wavefront that was multiplied by a plane had its tilt bookkeeping changed by that (or a later) product'
             exp = np.zeros(shape, dtype=complex)
             allw = np.ones(shape, dtype=bool)
             for k in range(nseg):
@@ -1106,7 +1181,7 @@ def oracle(c, impl):
                 # The window is not pinned (fix / floor / round of the shift are all admissible integer parts), but
                 # every output sample that lies in the propagation window translated by floor(s) AND by ceil(s)
                 # of the field's metadata shift s lies in it for every admissible choice, and must be evaluated.
-                if name == 'opd':
+                if name in ('opd', 'opd2', 'opd2r'):
                     ms = (0.0, 0.0)
                 elif name.startswith('plane') or name in ('wavefront', 'again', 'branch'):
                     ms = gshift
@@ -1142,9 +1217,9 @@ def oracle(c, impl):
                     return f'{name} and the OPD-ramp representation differ on samples both evaluate'
             for k, sh in enumerate(r['shifts']):
                 for ax in (0, 1):
-                    if name == 'opd':
+                    if name in ('opd', 'opd2', 'opd2r'):
                         if sh[ax] != 0:
-                            return 'opd: a wavefront without tilt elements reports a shift'
+                            return f'{name}: a wavefront without tilt elements reports a shift'
                     elif (name.startswith('plane') or name in ('wavefront', 'again', 'branch')) and not close(sh[ax], gshift[ax], TOL):
                         return (f'{name} field {k}: Field.shift axis {ax} is {sh[ax]!r}, the displacement formula gives '
                                 f'{gshift[ax]!r} for its tilt elements')
